@@ -53,7 +53,8 @@ def padding_switch(ctx, cq):
             if node.kind == "stmt" and isinstance(a, ast.Assign) and isinstance(a.targets[0], ast.Subscript):
                 k = const_str(a.targets[0].slice)
                 base = norm(a.targets[0].value)
-                if base in ("info", "self.meta['info']") and k:
+                from .c06 import _is_info_base
+                if _is_info_base(ctx, None, a.targets[0].value, asm) and k:
                     stored[k] = a
                 if k == "pad" and "kws" in base:
                     pad_off = (a, len(order))
